@@ -4,18 +4,21 @@ use crate::rng::Rng;
 pub const SINGLE: &[&str] = &[
     "a", "b", "x", "i", "f", "n", "0", "1", "7", "9", "_", " ", " ", "\n", "\n", "\t", "\r", "\r\n", "'",
     "\\", "/", "(", ")", "[", "]", "{", "}", "=", "#", "<", ">", ":", ",", ";", "+", "-", "*", "é",
-    "Ł", "€", "😀", "A", "F", "G", "g", "\"", "@", "$", ".",
+    "Ł", "€", "😀", "A", "F", "G", "g", "\"", "@", "$", ".", "X", "x", "\u{feff}", "ö", "O", "o",
 ];
 
 pub const FRAGMENTS: &[&str] = &[
     "if", "else", "while", "array", "of", "proc", "ref", "type", "var", "0x", "//", "'\\n'", ":=",
     "<=", ">=", "'a'", "'é'", "0x1F", "4294967295", "4294967296", "0xFFFFFFFF", "0x100000000",
-    "main", "int", "// c\n", "'😀'", "''", "'\\", "0xg", "007", "x1", "_y",
+    "main", "int", "// c\n", "'😀'", "''", "'\\", "0xg", "007", "x1", "_y", "0X1F", "0Xa", "0X", "0o7", "grö", "whileé",
 ];
 
 pub fn soup(rng: &mut Rng, max_items: usize) -> String {
     let n = rng.below(max_items + 1);
     let mut s = String::new();
+    if rng.chance(1, 16) {
+        s.push('\u{feff}'); // a byte order mark at the very start of the text
+    }
     for _ in 0..n {
         if rng.chance(1, 4) {
             s.push_str(*rng.pick(FRAGMENTS));
